@@ -245,12 +245,61 @@ Proof.
   - apply Z.gtb_ltb. - apply Z.geb_leb.
 Qed.
 
-Lemma lower_cond_exact k env : sound_tabs k -> fd_exact k -> forall c yes no t bv,
-  evalc64 env c = Some bv -> lower_cond k c yes no = Some t ->
+(* induction principle for the nested type (operands of a BoolOp) *)
+Fixpoint pcond_rect' (P : pcond -> Prop)
+    (Hcmp : forall o a b, P (PCmp o a b))
+    (Hbool : forall isand vs, Forall P vs -> P (PBoolOp isand vs))
+    (Hnot : forall a, P a -> P (PNot a)) (c : pcond) : P c :=
+  match c with
+  | PCmp o a b => Hcmp o a b
+  | PBoolOp isand vs =>
+      Hbool isand vs ((fix go (l : list pcond) : Forall P l :=
+                         match l with
+                         | [] => Forall_nil P
+                         | x :: r => Forall_cons x (pcond_rect' P Hcmp Hbool Hnot x) (go r)
+                         end) vs)
+  | PNot a => Hnot a (pcond_rect' P Hcmp Hbool Hnot a)
+  end.
+
+Definition cond_ok (k : lowcfg) (env : list Z) (c : pcond) : Prop :=
+  forall yes no t bv, evalc64 env c = Some bv -> lower_cond k c yes no = Some t ->
+                      eval_ctree env t = eval_ctree env (if bv then yes else no).
+
+(* the loop of gen_bool_op over values[:-1] followed by the last value *)
+Lemma chain_exact k env isand : forall l, Forall (cond_ok k env) l -> forall yes no t bv,
+  chain_eval (evalc64 env) isand l = Some bv ->
+  chain_lower (lower_cond k) isand yes no l = Some t ->
   eval_ctree env t = eval_ctree env (if bv then yes else no).
 Proof.
+  induction l as [|x r IH]; intros HF yes no t bv He Hl; [discriminate|].
+  inversion HF as [|? ? Hx Hr]; subst.
+  cbn [chain_eval] in He. destruct (evalc64 env x) as [v|] eqn:Ex; [|discriminate].
+  destruct r as [|y r'].
+  - cbn [chain_lower] in Hl.
+    assert (bv = v).
+    { destruct (Bool.eqb v isand) eqn:E; cbn [chain_eval] in He; inversion He; subst; auto.
+      symmetry. now apply Bool.eqb_prop. }
+    subst. now apply (Hx yes no t v Ex Hl).
+  - change (chain_lower (lower_cond k) isand yes no (x :: y :: r'))
+      with (match chain_lower (lower_cond k) isand yes no (y :: r') with
+            | Some next => if isand then lower_cond k x next no else lower_cond k x yes next
+            | None => None end) in Hl.
+    destruct (chain_lower (lower_cond k) isand yes no (y :: r')) as [next|] eqn:Hn; [|discriminate].
+    destruct (Bool.eqb v isand) eqn:E.
+    + apply Bool.eqb_prop in E. subst v.
+      specialize (IH Hr yes no next bv He Hn).
+      destruct isand.
+      * rewrite (Hx next no t true Ex Hl). exact IH.
+      * rewrite (Hx yes next t false Ex Hl). exact IH.
+    + inversion He; subst bv. destruct isand; destruct v; try discriminate.
+      * apply (Hx next no t false Ex Hl).
+      * apply (Hx yes next t true Ex Hl).
+Qed.
+
+Lemma lower_cond_exact k env : sound_tabs k -> fd_exact k -> forall c, cond_ok k env c.
+Proof.
   intros HS HF. pose proof HS as (_ & _ & Hc).
-  induction c as [o a b | a IHa b IHb | a IHa b IHb | a IHa]; intros yes no t bv He Hl.
+  induction c as [o a b | isand vs IH | a IHa] using pcond_rect'; intros yes no t bv He Hl.
   - cbn [evalc64] in He. cbn [lower_cond] in Hl.
     destruct (eval64 env a) as [x|] eqn:Ea; try discriminate.
     destruct (eval64 env b) as [y|] eqn:Eb; try discriminate. inversion He; subst.
@@ -261,17 +310,18 @@ Proof.
     rewrite (lower_exact k env HS a x ta (fd_ok_all _ _ _ HF) Ea La).
     rewrite (lower_exact k env HS b y tb (fd_ok_all _ _ _ HF) Eb Lb). cbn [obind].
     rewrite (cmp_exact o io x y (Hc _ _ Hio)). destruct (py_cmp o x y); reflexivity.
-  - cbn [evalc64] in He. cbn [lower_cond] in Hl.
-    destruct (lower_cond k b yes no) as [tb|] eqn:Lb; try discriminate.
-    destruct (evalc64 env a) as [[|]|] eqn:Ea; try discriminate.
-    + rewrite (IHa _ _ _ _ eq_refl Hl). apply (IHb _ _ _ _ He Lb).
-    + inversion He; subst. apply (IHa _ _ _ _ eq_refl Hl).
-  - cbn [evalc64] in He. cbn [lower_cond] in Hl.
-    destruct (lower_cond k b yes no) as [tb|] eqn:Lb; try discriminate.
-    destruct (evalc64 env a) as [[|]|] eqn:Ea; try discriminate.
-    + inversion He; subst. apply (IHa _ _ _ _ eq_refl Hl).
-    + rewrite (IHa _ _ _ _ eq_refl Hl). apply (IHb _ _ _ _ He Lb).
+  - cbn [evalc64] in He. cbn [lower_cond] in Hl. eapply chain_exact; eauto.
   - cbn in Hl. discriminate.
+Qed.
+
+(* a deciding operand after a prefix of non-deciding ones fixes the value of the chain *)
+Lemma chain_eval_decided env isand pre a post :
+  Forall (fun c => evalc64 env c = Some isand) pre -> evalc64 env a = Some (negb isand) ->
+  chain_eval (evalc64 env) isand (pre ++ a :: post) = Some (negb isand).
+Proof.
+  intros HF Ha. induction HF as [|x r Hx Hr IH]; cbn [app chain_eval].
+  - rewrite Ha. destruct isand; reflexivity.
+  - rewrite Hx. rewrite Bool.eqb_reflx. exact IH.
 Qed.
 
 (* ------------------------------------------------------------------ gen_for skeleton *)
